@@ -304,7 +304,7 @@ def tt_case(rec, res, label, A, shp, N, M, eps, rmax):
             ns = float(np.linalg.norm(s))
             if ns > 0:
                 tot += (e / ns) ** 2
-        if tot > eps * eps * (1 + 1e-9):
+        if tot > eps * eps * (1 + 1e-5):
             return "per-bond allowances sum to %.6g > eps^2 = %.6g (the sweep may discard more than eps allows)" % (tot, eps * eps)
         if not binding:
             full = dense_of(x).to(Ad.dtype)
